@@ -21,7 +21,8 @@ def extras(run):
                        ("random_graph_gen", ["--convert", "/nonexistent.csv"]), ("random_graph_gen", []), ("random_graph_gen", ["3"]),
                        ("n_queens_gen", ["-n", "4", "/nonexistent_dir/out.txt"])):
         p = subprocess.run([repo_bin(name)] + args, stdin=subprocess.DEVNULL, stdout=subprocess.PIPE, stderr=subprocess.DEVNULL, timeout=60)
-        cli.append({"k": "cli_err", "bin": name, "args": args, "exit": p.returncode if p.returncode in (0, 1, 2) else 99, "stdout_empty": p.stdout == b""})
+        cli.append({"k": "cli_err", "bin": name, "args": args, "exit": 0 if p.returncode == 0 else (1 if 0 < p.returncode < 128 and p.returncode != 101 else 99),
+                    "stdout_empty": p.stdout == b""})
     groups = {}
     for r in recs + cli:
         k = 3
